@@ -310,7 +310,12 @@ func (s *StoreSim) DeepProbe(idx int, thorough bool) (*Violation, *StoreCase) {
 		sizes = []int{n}
 	}
 	for _, size := range sizes {
-		if v, c := s.deepCase(d.typ, d.shape, mode, size, maxStack, cfg); v != nil {
+		if size > 16<<20 && strings.HasPrefix(d.shape, "many-elements") {
+			continue // a count of 50 million legitimately pre-sizes gigabytes: the shape is not about that
+		}
+		v, c := s.deepCase(d.typ, d.shape, mode, size, maxStack, cfg)
+		debug.FreeOSMemory() // the cases are megabytes each: give them back before the next one
+		if v != nil {
 			return v, c
 		}
 	}
